@@ -28,6 +28,8 @@ def rand_lark(rnd, depth):
     meta = lark.tree.Meta()
     if rnd.random() < .75:
         meta.line, meta.column, meta.end_line, meta.end_column = rnd.randint(1, 9), rnd.randint(1, 30), rnd.randint(1, 9), rnd.randint(1, 30)
+        if rnd.random() < .1:
+            meta.end_line = meta.end_column = None      # a tree whose end position is unknown
         meta.empty = False
     return lark.Tree(rnd.choice(['funcdef', 'block', 'sum', 'name', 'assign']), kids, meta)
 
@@ -36,13 +38,19 @@ def zopt(x):
     return 'None' if x is None else '(Some %s)' % coq_Z(int(x))
 
 
+def zenc(x):
+    """a missing number of a tree's own position (lark leaves the end open when the text stops inside a block) is
+    carried through unchanged by the code; it is encoded as -1, a value no real position has"""
+    return -1 if x is None else int(x)
+
+
 def coq_lark(t):
     import lark
     if t is None:
         return 'LNone'
     if isinstance(t, lark.Tree):
         m = t.meta
-        meta = 'None' if (m is None or m.empty) else '(Some (%s, %s, %s, %s))' % tuple(coq_Z(int(x)) for x in (m.line, m.column, m.end_line, m.end_column))
+        meta = 'None' if (m is None or m.empty) else '(Some (%s, %s, %s, %s))' % tuple(coq_Z(zenc(x)) for x in (m.line, m.column, m.end_line, m.end_column))
         return '(LTree %s [%s] %s)' % (coq_str(str(t.data)), '; '.join(coq_lark(c) for c in t.children), meta)
     return '(LToken %s %s %s %s %s %s)' % (coq_str(str(t.type)), coq_str(str(t.value)), zopt(t.line), zopt(t.column), zopt(t.end_line), zopt(t.end_column))
 
@@ -50,7 +58,7 @@ def coq_lark(t):
 def coq_dump(d):
     if d is None:
         return 'DNone'
-    sm = '(%s, %s, %s, %s)' % tuple(coq_Z(int(x)) for x in d['source_map'])
+    sm = '(%s, %s, %s, %s)' % tuple(coq_Z(zenc(x)) for x in d['source_map'])
     if 'children' in d:
         return '(DTree %s [%s] %s)' % (coq_str(d['name']), '; '.join(coq_dump(c) for c in d['children']), sm)
     return '(DToken %s %s %s)' % (coq_str(d['name']), coq_str(d['value']), sm)
@@ -68,7 +76,7 @@ def view(e):
 
 
 def coq_view(v):
-    sm = '(%s, %s, %s, %s)' % tuple(coq_Z(int(x)) for x in v[3])
+    sm = '(%s, %s, %s, %s)' % tuple(coq_Z(zenc(x)) for x in v[3])
     if v[0] == 'T':
         return '(VTree %s [%s] %s)' % (coq_str(v[1]), '; '.join(coq_view(c) for c in v[2]), sm)
     if v[0] == 'E':
